@@ -80,7 +80,7 @@ SPECS = {
                  "reference encoding is decoded by csproto.Decoder; or one well-formed field sequence walked with DecodeTag+Skip in safe and fast "
                  "mode (each returned slice must equal the reference walker's field extent, concatenation must reproduce the input); "
                  "distinct by (kind, value class, key class, mode) resp. (wire-type set, key-length set, mode) for sequences with >=3 fields and >=2 wire types"),
-        "explanation": "same value/field-number sets as C01 (thorough: the 2^32 sweeps compare bytes with the references in the same loop); Skip: 5 000 (quick) / 500 000 (thorough) seeded sequences of 1-40 fields incl. numbers >=2^26, nested payloads and 70 000-byte payloads",
+        "explanation": "same value/field-number sets as C01 (thorough: the 2^32 sweeps compare bytes with the references in the same loop); Skip: 5 000 (quick) / 500 000 (thorough) seeded sequences of 1-40 fields incl. numbers >=2^26, nested payloads and 70 000-byte payloads; every scalar and packed field is decoded a second time with 17 bytes of other fields behind it in the buffer; Skip is also exercised by Seek to a field's payload followed by Skip, in an order unrelated to the field order",
         "assumptions": TRUST_WIRE + ["only encodings a conforming writer emits are fed to the decoder here (minimal varints, four wire types)"],
     },
     "C03": {
@@ -115,7 +115,7 @@ SPECS.update({
                  "against a table computed from a refwire walk of the same bytes (last occurrence / all occurrences with packed runs expanded / "
                  "not-found / not-defined / wire-type mismatch / overflow); non-trivial when the message has >=2 fields and the tag is present; "
                  "distinct by (accessor, wire type of the field, outcome class, mode, entry point, nesting depth)"),
-        "explanation": "messages: 1-12 fields, nesting <=3, all four wire types, repeated and packed runs, empty strings and empty nested messages, field numbers up to 2^29-1, every 50th case the empty message; definitions over present/absent/nested tags with negative twins; entry points Decode function, Decoder safe, Decoder fast; three mutated/random byte strings per message are decoded and every accessor called with only 'no panic' judged; every 3rd case additionally keeps four results of one Decoder alive together (interleaved reads, sibling Close, recycled decode) and re-reads nested results handed out earlier",
+        "explanation": "messages: 1-12 fields, nesting <=3, all four wire types, repeated and packed runs, empty strings and empty nested messages, field numbers up to 2^29-1, every 50th case the empty message; definitions over present/absent/nested tags with negative twins; entry points Decode function, Decoder safe, Decoder fast; three mutated/random byte strings per message are decoded and every accessor called with only 'no panic' judged; every 3rd case additionally keeps four results of one Decoder alive together (interleaved reads, sibling Close, recycled decode) and re-reads nested results handed out earlier; the one-Decoder scenario rotates WithMaxBufferSize(-1,0,1,2) and decodes again after everything was closed; every 4th case changes the SAME Def object in place (tag swapped, nested definition extended) and calls the Decode function again",
         "assumptions": TRUST_LAZY + ["a packed run containing a 10-byte varint with overflow bits is outside the precondition and not judged"],
     },
     "C14": {
@@ -140,7 +140,7 @@ SPECS.update({
                  "that goroutine's input; binary built with -race, reports parsed from GORACE logs; seeded yields/sleeps at four verif points; "
                  "non-trivial when the result object came from another goroutine; distinct classes = (G, GOMAXPROCS, mode, max buffer) configurations; "
                  "interleaving diversity reported as distinct 4-grams of the boundary event order"),
-        "explanation": "evidence counters: cross_goroutine_handovers, result_object_reuses, distinct_boundary_4grams, per-site hook hits, race_reports; every fourth goroutine also feeds messages whose outer level is valid and whose nested elements are corrupt after some well-formed ones (nested access fails, result closed as usual)",
+        "explanation": "evidence counters: cross_goroutine_handovers, result_object_reuses, distinct_boundary_4grams, per-site hook hits, race_reports; every fourth goroutine also feeds messages whose outer level is valid and whose nested elements are corrupt after some well-formed ones (nested access fails, result closed as usual); four configurations use WithBufferFilterFunc (shrink to 0 / to 1 / shrink to 0 with a yield inside the callback)",
         "assumptions": TRUST_LAZY + ["the race detector only sees races on executions that happened"],
     },
 })
@@ -216,7 +216,7 @@ SPECS.update({
         "rule": ("one case = one message value of one generated type (unit x flavour {gogo, gv1, gv2} x generator options) built through reflection on fresh structs; "
                  "Size(), Marshal() and MarshalTo(buffer of exactly Size() bytes, canary-framed, filled 0xAA then 0x55) must agree: equal lengths, every byte written, no overrun, "
                  "no truncated copy (encoder hook), no panic; non-trivial when >=1 field is populated; distinct by (package, message, field + boundary class | random field-number set)"),
-        "explanation": "values: the empty message, every field alone at each boundary value / container shape (lists 1,2,127,128; maps 0,1,3; empty and full nested messages in fields, lists, maps, oneofs), then seeded random combinations; required fields always set; violations are shrunk field by field and signed by (flavour, failure kind, populated field shapes); every boundary case and every 4th random case is evaluated a second time in the 'empty but allocated' Go representation (nil lists, maps and presence-less bytes rewritten to empty non-nil values by Go reflection: same contents); Google V2 values holding an empty element in a repeated message field get a third pass with that element as a nil pointer",
+        "explanation": "values: the empty message, every field alone at each boundary value / container shape (lists 1,2,127,128; maps 0,1,3; empty and full nested messages in fields, lists, maps, oneofs), then seeded random combinations; required fields always set; violations are shrunk field by field and signed by (flavour, failure kind, populated field shapes); every boundary case and every 4th random case is evaluated a second time in the 'empty but allocated' Go representation (nil lists, maps and presence-less bytes rewritten to empty non-nil values by Go reflection: same contents); Google V2 values holding an empty element in a repeated message field get a third pass with that element as a nil pointer; (C04 only) that pass also turns empty message values of maps into nil pointers",
         "assumptions": TRUST_GEN,
     },
     "C05": {
@@ -240,7 +240,7 @@ SPECS.update({
                  "opposite packing, packed runs split/mixed, duplicated singular scalars, split singular messages, several oneof members, map entries value-first / key omitted / value omitted / duplicate key, "
                  "explicit zero values, interleaved unknown fields; the generated Unmarshal (into a destination pre-populated with unrelated content and unknown bytes) must succeed and equal the dynamicpb parse "
                  "of the same bytes on known fields, and equal a decode into a zero destination; non-trivial when the variant differs from the canonical encoding; distinct by (package, message, variant family, field/case)"),
-        "explanation": "differences are itemised per field path and signed by (flavour, variant family - or canonical when the canonical encoding of the shrunk value shows the same item -, item kind@field shape)",
+        "explanation": "differences are itemised per field path and signed by (flavour, variant family - or canonical when the canonical encoding of the shrunk value shows the same item -, item kind@field shape); families added by the seeded rounds: mapomitboth, splitmsg-empty (an empty occurrence around the complete one), splitmsg+unknown, oneof-aba (same member, other member, same member), unknown-padded",
         "assumptions": TRUST_GEN + ["variants not listed in the statement (over-long varints, zero-length packed runs, unknown fields inside map entries, groups) are not generated"],
     },
     "C07": {
@@ -250,7 +250,7 @@ SPECS.update({
         "rule": ("one case = a message encoding with 1-3 unknown fields per message level (all four wire types; numbers next to declared ones, >=2^26, near 2^29-1; payloads 0..70000 bytes; first/middle/last positions) "
                  "fed to the generated Unmarshal then Marshal: the reference parse of the output must hold byte-identical unknown fields per message (top level and nested) and Size() must equal the output length; "
                  "distinct by (package, message, variant family, field/case)"),
-        "explanation": "gv2 keeps unknown bytes in unknownFields, gogo/gv1 in XXX_unrecognized; both are compared through the reference parse, never through the struct; family unknown-padded writes the key, length prefix and varint value of unknown fields with redundant continuation bytes (valid wire data no encoder emits); differences inside runtime-owned google.protobuf.* sub-messages are not judged (protobuf-go re-encodes unknown keys itself)",
+        "explanation": "gv2 keeps unknown bytes in unknownFields, gogo/gv1 in XXX_unrecognized; both are compared through the reference parse, never through the struct; family unknown-padded writes the key, length prefix and varint value of unknown fields with redundant continuation bytes (valid wire data no encoder emits); differences inside runtime-owned google.protobuf.* sub-messages are not judged (protobuf-go re-encodes unknown keys itself); after the comparison the buffer returned by Marshal is inverted in place and Marshal is called again (the caller owns the returned bytes)",
         "assumptions": TRUST_GEN,
     },
 })
@@ -327,7 +327,7 @@ SPECS.update({
                  "and (through reflection) to the generated struct; the bytes must equal the generated Marshal of a fresh struct built from the model (for maps with >=2 entries: equal length and equal reference parse); a step whose fresh copy "
                  "fails too is a content defect owned by C04/C05/C17 and is not counted; non-trivial when >=1 mutation precedes the marshal; distinct by (flavour, message, last op bigram). "
                  "concurrent: G in {2,8,16,64} goroutines x GOMAXPROCS {1,2,16} call Size/Marshal/csproto.Marshal/runtime Marshal on one quiescent struct under -race; every result must equal the pre-computed bytes"),
-        "explanation": "violations are signed by (flavour, failing call, failure kind, history cause: whether csproto or the owning runtime computed a size before, and whether a mutation followed); history steps include Clone (the model continues from what the clone holds) and 'alloc-empty-containers' (representation change only); message types with declared extensions are included with their extensions unset; MarshalTo steps write into a destination pre-filled with non-zero bytes",
+        "explanation": "violations are signed by (flavour, failing call, failure kind, history cause: whether csproto or the owning runtime computed a size before, and whether a mutation followed); history steps include Clone (the model continues from what the clone holds) and 'alloc-empty-containers' (representation change only); message types with declared extensions are included with their extensions unset; MarshalTo steps write into a destination pre-filled with non-zero bytes; the concurrent phase interleaves a second message of another Go type (previous subject or latest subject of another flavour) in the same goroutines",
         "assumptions": TRUST_GEN + ["message types with declared extensions are skipped here (content-level known findings dominate them)", "the race detector only sees races on executions that happened"],
     },
 })
@@ -411,7 +411,7 @@ SPECS.update({
         "rule": ("one case = (schema unit, flavour, option tuple {single file, file per message} x {unsafe decode off, on} with the API version fixed by the flavour and specialname= set where the unit needs it): the real protoc-gen-fastmarshal "
                  "(built from the tree under test) is run twice on the identical CodeGeneratorRequest; it must not fail or crash, both responses must be byte-identical, every file name must be emitted once and be of the form <prefix>.pb.fm.go / "
                  "<prefix>_<lower(message)>.pb.fm.go, every file must parse (go/parser) and the package must compile together with the types produced by protoc-gen-gogo / protoc-gen-go; non-trivial when the response holds >=1 file; distinct by (unit, flavour, option tuple)"),
-        "explanation": "corpus: feature matrix for proto2 and proto3 (scalars, repeated, packed/unpacked, oneofs, maps by key and value kind, nested/recursive, field-number ranges, enums, well-known types, name collisions, equal short names, proto3 optional, required, extensions by family) plus seeded random units; fields named size/marshal_to are generated for the gogo-style runtimes only (protoc-gen-go cannot rename them: not in the supported set)",
+        "explanation": "corpus: feature matrix for proto2 and proto3 (scalars, repeated, packed/unpacked, oneofs, maps by key and value kind, nested/recursive, field-number ranges, enums, well-known types, name collisions, equal short names, proto3 optional, required, extensions by family) plus seeded random units; fields named size/marshal_to are generated for the gogo-style runtimes only (protoc-gen-go cannot rename them: not in the supported set); units added by the seeded rounds: required fields only in nested / equally named messages, fields named like gogo-generated methods (six specialname options), extension and field defaults, extend blocks at depth 2-3, repeated extensions of bytes/sfixed64/enum/message kind, 3-way file-name collisions, required fields with defaults, imports of a generated package whose Go package name differs from its path (also generated together with the main file in one request, whose output must not change); boolean options are spelled in every form strconv.ParseBool accepts",
         "assumptions": TRUST_GEN[:1] + ["the harness plays protoc's role; descriptors validated by protodesc.NewFile"],
     },
 })
@@ -463,7 +463,7 @@ SPECS.update({
                  "MsgType equals the flavour's class; csproto.Equal across runtimes is false; unsupported values (nil, int, string, struct, pointer to non-message, typed nil, slice) give the documented error/zero result without panic; "
                  "distinct by (flavour, plain/fast, message, value class). concurrent: rounds in which G in {2,16,64} goroutines (GOMAXPROCS 1,2,16) call MsgType/Clone/MarshalText on values of types whose classification was just "
                  "evicted (verif hook), with seeded yields between cache miss and store, under -race; every goroutine must observe the correct class; evidence counts rounds with >=2 goroutines inside the miss window"),
-        "explanation": "every case ends with Size/Marshal after lock-step in-place mutations of the message that was sized and marshaled before (oracle: the owning runtime's Marshal of a fresh copy of the current contents); gogo well-known types are exercised as fields of plain gogo types; decoding (value bytes, nil, empty payload; Unmarshal and GrpcCodec) into a message that already holds other content must match the owning runtime's Unmarshal; plain types with an unset required field must be accepted/refused like the owning runtime does",
+        "explanation": "every case ends with Size/Marshal after lock-step in-place mutations of the message that was sized and marshaled before (oracle: the owning runtime's Marshal of a fresh copy of the current contents); gogo well-known types are exercised as fields of plain gogo types; decoding (value bytes, nil, empty payload; Unmarshal and GrpcCodec) into a message that already holds other content must match the owning runtime's Unmarshal; plain types with an unset required field must be accepted/refused like the owning runtime does; Equal(generated, *dynamicpb.Message of the same descriptor) vs proto.Equal for Google V2; MarshalText on messages with unknown fields and on typed nil pointers; plain gogo types also in the 'plainsz' flavour (generated Size(), no Marshal/Unmarshal)",
         "assumptions": TRUST_GEN + ["the owning runtime's API is the stated oracle for Clone/Equal/Reset/MarshalText", "the race detector only sees races on executions that happened"],
     },
 })
@@ -479,7 +479,7 @@ SPECS.update({
                  "with the runtime's own HasExtension/GetExtension, ExtensionFieldNumber with the declared number, RangeExtensions with the set of set numbers, and a refwire walk of csproto.Marshal output with the set numbers "
                  "(cleared extensions must be gone); gogo messages are paired with google descriptors and vice versa: Has must be false, Get/Set must fail, the message must be unchanged (ClearExtension's documented panic is tolerated); "
                  "non-trivial when a sequence contains a Set and a Clear; distinct by (flavour, unit, op bigram) and (message flavour, descriptor flavour)"),
-        "explanation": "values are built in each runtime's own convention (pointer-to-scalar for Gogo/Google V1, plain values for V2) from dynamic values; Google V1 and V2 descriptors share one Go type and are not a mismatch pair; plain and fast packages (for fast types csproto.Marshal runs the generated extension code); unit p2extdefault declares extensions with explicit defaults",
+        "explanation": "values are built in each runtime's own convention (pointer-to-scalar for Gogo/Google V1, plain values for V2) from dynamic values; Google V1 and V2 descriptors share one Go type and are not a mismatch pair; plain and fast packages (for fast types csproto.Marshal runs the generated extension code); unit p2extdefault declares extensions with explicit defaults; the value passed to the RangeExtensions callback is compared with what the owning runtime's own enumeration API hands out; for Google V2, extension types built at run time (not in the global registry) go through Set/Has/Get/Clear/ClearAll/Range/Marshal",
         "assumptions": TRUST_GEN + ["the owning runtime's extension API is the stated oracle"],
     },
 })
@@ -494,7 +494,7 @@ SPECS.update({
                  "equal as a JSON tree to the owning runtime's own encoder given the same options (protojson / golang jsonpb / gogo jsonpb called directly), be restored to an equal message by JSONUnmarshaler and by the owning runtime's decoder; "
                  "indentation must be whole copies of the indent string; enum fields are numbers iff requested; zero-valued implicit fields appear iff requested; JSON with an injected unknown key is accepted iff allowed; JSON lacking a required key "
                  "is accepted iff allowPartial (Google V2, as documented); nil -> (nil, nil), unmarshal into nil -> error; distinct by (flavour, message, option tuple, value class)"),
-        "explanation": "values with NaN or -0.0 are excluded (JSON cannot carry the distinction); comparisons are on parsed JSON trees, never on raw text; well-known types are additionally run as root messages (Value of all six kinds incl. null, Struct, ListValue, Timestamp, Duration, wrappers, FieldMask, Empty) for the Google V2 and Gogo runtimes, restricted to values the owning runtime's own JSON codec round-trips; typed nil pointers of 13 well-known types in the nil clause; gogo messages with an enum field imported from another gogo package are built by Go reflection (the bridge cannot reflect on them) and compared with gogo's jsonpb",
+        "explanation": "values with NaN or -0.0 are excluded (JSON cannot carry the distinction); comparisons are on parsed JSON trees, never on raw text; well-known types are additionally run as root messages (Value of all six kinds incl. null, Struct, ListValue, Timestamp, Duration, wrappers, FieldMask, Empty) for the Google V2 and Gogo runtimes, restricted to values the owning runtime's own JSON codec round-trips; typed nil pointers of 13 well-known types in the nil clause; gogo messages with an enum field imported from another gogo package are built by Go reflection (the bridge cannot reflect on them) and compared with gogo's jsonpb; two values per type have their strings overwritten in field order from a curated list (trailing backslash first, then ', ' / ':  ' / quotes / braces); adapters are also given the OTHER side's options set to the opposite values (no documented effect there)",
         "assumptions": TRUST_GEN + ["the owning runtime's JSON implementation is the stated oracle for option effects"],
     },
 })
@@ -509,7 +509,7 @@ SPECS.update({
                  "B = csproto.Marshal(m), the write cursor (verif accessor) must advance by exactly that; Decoder.DecodeNested must consume exactly the field (reference walker extent), yield an equal message / the payload, return a failing nested "
                  "marshaler's / unmarshaler's error unchanged without moving the cursor, and reject a declared length beyond the buffer without invoking the nested decoder (stub counts invocations); "
                  "distinct by (nested kind, position, payload size class)"),
-        "explanation": "failing stubs are injected for every 7th stub case (MarshalTo error, Marshal error, Unmarshal error); every field is also decoded into a value of an unsupported type (must be refused, also for an empty payload) and, for generated/plain types, into a destination that already holds another value",
+        "explanation": "failing stubs are injected for every 7th stub case (MarshalTo error, Marshal error, Unmarshal error); every field is also decoded into a value of an unsupported type (must be refused, also for an empty payload) and, for generated/plain types, into a destination that already holds another value; every nested field is also decoded from a hand-made encoding with an over-long (valid) length prefix followed by another field",
         "assumptions": TRUST_GEN + TRUST_WIRE[2:],
     },
 })
@@ -539,7 +539,7 @@ SPECS.update({
                  "protodump: one case = one run of the real binary (built from the tree under test) on a seeded valid or malformed message with seeded -expand / -strings path sets, given through -file, redirected stdin or a pipe: stdout must equal "
                  "the reference rendering (one tag/wire-type header per field in wire order, value lines, recursion exactly into the requested paths), exit status 0 iff the input is well-formed, never a Go panic; "
                  "distinct by (decoration set, length class) resp. (input channel, number of expand/strings paths, valid?)"),
-        "explanation": "line breaks inside a digit pair are not generated (documented as line-by-line); expand paths are only requested for fields that hold nested messages; path elements are >=1; five families of texts with one physical line of 64-76 KiB (single-line dumps, long comment, long blank run, long line in the middle), each also with foreign text after the long line that must be rejected",
+        "explanation": "line breaks inside a digit pair are not generated (documented as line-by-line); expand paths are only requested for fields that hold nested messages; path elements are >=1; five families of texts with one physical line of 64-76 KiB (single-line dumps, long comment, long blank run, long line in the middle), each also with foreign text after the long line that must be rejected; protodump inputs include fully expanded chains of 8-40 nesting levels and bushy trees (two nested-message siblings per level, 4-7 levels) with random prefix-closed expand sets",
         "assumptions": TRUST_WIRE[:2],
     },
 })
